@@ -251,11 +251,18 @@ def time_observe(c, time_obs, same_grid, n=3, K=3, obsmap=False):
     grid = np.linspace(0, 1, n); gobs = grid if same_grid else np.linspace(0.1, 0.9, 2)
     times = np.linspace(0, 1, K)
     tobs = {'final': 'final', 'all': 'all', 'explicit': np.array([0.25, 0.75])}[time_obs]
-    om = (lambda v: 2 * v + 1) if obsmap else None
+    seen = []
+    def _om(v): seen.append(np.shape(v)); return 2 * v + 1
+    om = _om if obsmap else None
     pde = TimeDependentLinearPDE(lambda p, t: (A(p, t), f(p, t), u0(p, t)), times, time_obs=tobs, grid_sol=grid, grid_obs=gobs, observation_map=om, linalg_solve=Solver(c))
     U = c.vec('U', n * K).reshape(n, K)
     Interp.log.clear()
     out = pde.observe(U)
+    if obsmap:
+        nt = 1 if time_obs == 'final' else (K if time_obs == 'all' else len(tobs))
+        c.holds('observation_map_receives_the_restricted_solution_one_column_per_time_a_vector_for_a_single_time',
+                len(seen) == 1 and seen[0] == ((len(gobs),) if nt == 1 else (len(gobs), nt)), note=str(seen))
+        seen.clear()
     if same_grid and time_obs == 'final':
         c.holds('no_interpolation_at_coinciding_nodes_and_final_time', len(Interp.log) == 0)
         c.eq('observation_is_last_time_level', out, om(U[:, -1]) if om else U[:, -1])
